@@ -215,6 +215,14 @@ fn eq_res<T: Elem>(a: &stats_ci::CIResult<Interval<T>>, b: &stats_ci::CIResult<I
     }
 }
 
+fn show<T: Debug>(d: &[T]) -> String {
+    if d.len() <= 40 {
+        format!("{d:?}")
+    } else {
+        format!("[{:?}, {:?}, {:?}, {:?}, ... {} elements]", d[0], d[1], d[2], d[3], d.len())
+    }
+}
+
 /// One multiset (given sorted) in one input order: all entry points must return the
 /// order statistics at the ranks of ci_indices.
 fn judge_elements<T: Elem>(ty: &str, sorted: &[T], order: &[usize], confs: &[(Kind, f64)], qs: &[f64], s: &mut Sink) {
@@ -251,7 +259,7 @@ fn judge_elements<T: Elem>(ty: &str, sorted: &[T], order: &[usize], confs: &[(Ki
                 match r {
                     Ok(r) => {
                         if !same_as_expect(r) {
-                            s.violation(format!("elements/{name}-not-the-order-statistics/{}", kind.name()), format!("{name}({c:?}, {data:?}, {qv}) = {r:?}; ranks {idx:?} of the sorted sample give {expect:?}"), case());
+                            s.violation(format!("elements/{name}-not-the-order-statistics/{}", kind.name()), format!("{name}({c:?}, {}, {qv}) = {r:?}; ranks {idx:?} of the sorted sample give {expect:?}", show(&data)), case());
                         }
                     }
                     Err(m) => s.violation(format!("elements/{name}-panicked"), format!("{name}({c:?}, .., {qv}) panicked: {m}"), case()),
@@ -266,7 +274,7 @@ fn judge_elements<T: Elem>(ty: &str, sorted: &[T], order: &[usize], confs: &[(Ki
                     match r {
                         Ok(r) => {
                             if !same_as_expect(&r) {
-                                s.violation(format!("elements/ci_max_size-not-the-order-statistics/{}", kind.name()), format!("ci_max_size::<CAP={cap}>({c:?}, {data:?}, {qv}) = {r:?}; expected {expect:?}"), case());
+                                s.violation(format!("elements/ci_max_size-not-the-order-statistics/{}", kind.name()), format!("ci_max_size::<CAP={cap}>({c:?}, {}, {qv}) = {r:?}; expected {expect:?}", show(&data)), case());
                             }
                         }
                         Err(m) => s.violation("elements/ci_max_size-panicked-within-capacity", format!("CAP={cap} n={n}: {m}"), case()),
@@ -390,6 +398,28 @@ fn run_elements_for<T: Elem>(ty: &'static str, value_of: &(dyn Fn(usize) -> T + 
     let r = par_judge(&jobs, |(sorted, order), s| judge_elements(ty, sorted, order, &confs, &qs, s));
     let l = std::mem::take(s);
     *s = l.merge(r);
+    // large samples (beyond 2^16 elements; thorough: also beyond 2^20): three unsorted orders,
+    // fewer confidences and quantiles
+    let big_confs = [(Kind::Two, 0.95), (Kind::Upper, 0.9), (Kind::Lower, 0.975)];
+    let big_qs = [0.1, 0.5];
+    let mut big: Vec<(Vec<T>, Vec<usize>)> = vec![];
+    for n in tier.pick(vec![65_537usize, 70_001], vec![65_537, 70_001, 300_007, 1_048_577]) {
+        let mut sorted: Vec<T> = (0..n).map(|i| value_of(i / 2 * 2 + (i % 7 == 0) as usize)).collect();
+        sorted.sort_by(|a, b| a.partial_cmp(b).unwrap());
+        let id: Vec<usize> = (0..n).collect();
+        let mut rot = id.clone();
+        rot.rotate_left(n / 3);
+        let mut inter: Vec<usize> = (0..n).step_by(2).collect();
+        inter.extend((1..n).step_by(2));
+        inter.reverse();
+        let scr: Vec<usize> = (0..n).map(|i| (i * 7) % n).collect();
+        for o in [rot, inter, scr] {
+            big.push((sorted.clone(), o));
+        }
+    }
+    let r = par_judge(&big, |(sorted, order), s| judge_elements(ty, sorted, order, &big_confs, &big_qs, s));
+    let l = std::mem::take(s);
+    *s = l.merge(r);
 }
 
 fn f64_value(i: usize) -> f64 {
@@ -420,9 +450,12 @@ fn run(tier: Tier) -> Sink {
     run_elements_for::<i32>("i32", &|i| i as i32 * 3 - 7, tier, &mut s);
     run_elements_for::<u8>("u8", &|i| (i % 250) as u8, tier, &mut s);
     run_elements_for::<f64>("f64", &f64_value, tier, &mut s);
-    run_elements_for::<char>("char", &|i| char::from_u32(0x41 + i as u32 * 3).unwrap(), tier, &mut s);
+    run_elements_for::<char>("char", &|i| char::from_u32(0x41 + (i as u32 % 5000) * 3).unwrap(), tier, &mut s);
     static STRS: [&str; 16] = ["", "A", "AA", "B", "a", "ab", "b", "c", "d", "e", "f", "g", "h", "zz", "\u{e9}", "\u{4e2d}"];
     run_elements_for::<&'static str>("&str", &|i| STRS[i % 16], tier, &mut s);
+    // element types wider than two machine words (moved by memcpy, not in registers)
+    run_elements_for::<[u64; 4]>("[u64;4]", &|i| [i as u64 / 4, 7, i as u64 % 4, u64::MAX - 70_000_000 + i as u64], tier, &mut s);
+    run_elements_for::<(i64, i64, i64)>("(i64,i64,i64)", &|i| (-3, i as i64 / 2 - 9, i as i64 - 5), tier, &mut s);
     s
 }
 
@@ -456,7 +489,7 @@ fn main() {
     s.sample(json!({"check":"ranks","n":15,"q":0.5,"kind":"Two","level":0.95,"oracle":"k=round(7.5)=8 -> Wilson roots -> ranks min(floor(p*15),14) = (4, 11)"}));
     s.sample(json!({"check":"ranks","n":10,"q":"(4+1/2)/10 (q*n at a half-integer: exact tie decided on the rational value of the double)","kind":"Upper","level":0.9}));
     s.sample(json!({"check":"elements","type":"f64","sorted":"[-inf,-2.5,-0.0,+0.0,5e-324,1.0]","order":[5,0,3,2,4,1],"entry_points":["ci","ci_sorted_unchecked","ci_max_size<CAP=n,n+1,1024>","ci_max_size<CAP=n-1> must panic"]}));
-    rep.rule = format!("ranks: every n in 0..={} x q grid (j/64, (m+1/2)/n, m/n, quantiles a definite distance from every rounding tie, and invalid/boundary quantiles) x {} confidences through ci_indices and Stats::ci, plus n in {{1e5, 1e6+3, 2^40}}; elements: all permutations of 5 multisets (distinct, ties, all-equal) for n=4..{} and structured orders (sorted, reversed, rotations, interleaves, multiplicative scrambles) for n in {{15,64,257,1024,1025}}, samples of size 0..3, element types i32,u8,f64(+-0,+-inf,subnormal),char,&str, 6 confidences x 7 quantiles (3 valid, 4 inadmissible), entry points ci / ci_sorted_unchecked / ci_max_size with CAP in {{n,n+1,1024}} and CAP=n-1 (documented panic); distinct by (outcome variant, kind, type)", tier.pick(500, 3000), vcheck::confs(tier).len(), tier.pick("6 (+2 multisets at 7)", "8"));
+    rep.rule = format!("ranks: every n in 0..={} x q grid (j/64, (m+1/2)/n, m/n, quantiles a definite distance from every rounding tie, and invalid/boundary quantiles) x {} confidences through ci_indices and Stats::ci, plus n in {{1e5, 1e6+3, 2^40}}; elements: all permutations of 5 multisets (distinct, ties, all-equal) for n=4..{} and structured orders (sorted, reversed, rotations, interleaves, multiplicative scrambles) for n in {{15,64,257,1024,1025}}, samples of size 0..3, element types i32,u8,f64(+-0,+-inf,subnormal),char,&str,[u64;4],(i64,i64,i64), three unsorted orders of samples beyond 2^16 elements (thorough: beyond 2^20), 6 confidences x 7 quantiles (3 valid, 4 inadmissible), entry points ci / ci_sorted_unchecked / ci_max_size with CAP in {{n,n+1,1024}} and CAP=n-1 (documented panic); distinct by (outcome variant, kind, type)", tier.pick(500, 3000), vcheck::confs(tier).len(), tier.pick("6 (+2 multisets at 7)", "8"));
     rep.assume("ambiguity band: where the rational q*n is within 2^-50 (relative) of a half-integer, or p*n within 1e-9 of an integer, both neighbouring ranks are accepted");
     rep.assume("which rejection variant is returned for an inadmissible input is judged by C11; C03 accepts any of TooFewSamples/InvalidQuantile/TooFewSuccesses/TooFewFailures");
     rep.require(s.distinct() >= 15, "fewer than 15 distinct outcome classes: vacuous");
